@@ -10,6 +10,8 @@ import (
 	"fmt"
 	"os"
 	"os/exec"
+	"path/filepath"
+	"strings"
 	"sync"
 	"sync/atomic"
 	"syscall"
@@ -67,9 +69,9 @@ func faultList(thorough bool, rng *vsup.Rng) []fault {
 	return out
 }
 
-func attachStrace(tid int, f fault) (*exec.Cmd, error) {
+func attachStrace(tid int, f fault, logPath string) (*exec.Cmd, error) {
 	cmd := exec.Command("strace", "-p", fmt.Sprint(tid), "-e", "trace="+f.syscall,
-		"-e", fmt.Sprintf("inject=%s:error=%s:when=%d", f.syscall, f.errno, f.when), "-o", "/dev/null")
+		"-e", fmt.Sprintf("inject=%s:error=%s:when=%d", f.syscall, f.errno, f.when), "-o", logPath)
 	cmd.SysProcAttr = &syscall.SysProcAttr{Pdeathsig: syscall.SIGKILL}
 	stderr, err := cmd.StderrPipe()
 	if err != nil {
@@ -138,7 +140,8 @@ func runFaultScenario(t *testing.T, rec *recorder, f fault, seed uint64, scratch
 		rec.emit("FaultSkip", "why", "no loop thread id")
 		return false
 	}
-	cmd, err := attachStrace(tid, f)
+	straceLog := filepath.Join(scratch, fmt.Sprintf("strace.%d.log", seed%100000))
+	cmd, err := attachStrace(tid, f, straceLog)
 	if err != nil {
 		rec.emit("FaultSkip", "why", err.Error())
 		_ = h.eng.Stop(context.Background())
@@ -170,6 +173,21 @@ func runFaultScenario(t *testing.T, rec *recorder, f fault, seed uint64, scratch
 	_ = cmd.Process.Signal(syscall.SIGINT)
 	_ = cmd.Wait()
 	rec.emit("FaultDisarmed")
+	// where did the fault land?  strace counts every call of that name on the loop's thread, including the
+	// writes to the poller's own eventfd (wake-ups), which are not calls made on behalf of a connection
+	if raw, err := os.ReadFile(straceLog); err == nil {
+		for _, line := range strings.Split(string(raw), "\n") {
+			if !strings.Contains(line, "(INJECTED)") {
+				continue
+			}
+			fd := -1
+			if i := strings.Index(line, "("); i > 0 {
+				fmt.Sscanf(line[i+1:], "%d", &fd)
+			}
+			rec.emit("FaultHit", "line", line, "fd", fd, "eventfd", rec.isEventfd(fd))
+		}
+		_ = os.Remove(straceLog)
+	}
 	// the engine must still serve a fresh connection
 	probe := &peerSpec{id: 60, seed: rng.Uint64(), network: "tcp", done: make(chan struct{}), total: 100, segs: []int{100}, shut: "fin",
 		peerRead: "normal", consume: "all", reply: "frames", openOut: -1, closeAt: -1, closeHow: "action"}
